@@ -55,6 +55,8 @@ pub struct Inst {
 }
 
 pub const BASE0: Cfg = [0; NDIM];
+/// a slot that overlaps / ties with the trips (local search must displace trips to use it), binding maximal distance
+pub const BASE2: Cfg = [0, 0, 0, 0, 0, 4, 1, 0, 0, 0, 0, 0];
 pub const BASE1: Cfg = [0, 0, 0, 0, 0, 2, 1, 0, 0, 0, 0, 0]; // one slot x 2 tracks, binding maximal distance
 
 /// all configurations differing from `base` in at most `k` dimensions, simplest first
